@@ -1,4 +1,5 @@
 // Unit `build`: src/gzip.rs BodyWriter and src/lib.rs streaming_body / StreamingBodyBuilder (C17, C15, C11, C08 pass-through).
+#![feature(allocator_api)]
 use vstd::prelude::*;
 verus! {
 
